@@ -139,6 +139,27 @@ class Check:
                                   depth=r.depth, wall_s=round(r.wall, 1)))
         return r
 
+    def tlapm(self, module, timeout=900):
+        """Check the proofs of spec/<module>.tla with the TLA+ proof system; returns the number of proved obligations.
+        A proof that does not go through says something about the specification, not about the code: Infra."""
+        self.nrun += 1
+        d = os.path.join(self.tmp, "tlapm%d" % self.nrun)
+        os.makedirs(d)
+        for f in os.listdir(SPEC):
+            if f.endswith(".tla"):
+                shutil.copy(os.path.join(SPEC, f), d)
+        t = time.time()
+        p = subprocess.run(["timeout", str(timeout), "tlapm", "--threads", str(min(NCPU, 16)), module + ".tla"],
+                           cwd=d, capture_output=True, text=True)
+        out = p.stdout + p.stderr
+        m = re.search(r"All (\d+) obligations? proved", out)
+        if p.returncode != 0 or not m:
+            sys.stderr.write(out[-3000:])
+            raise Infra("tlapm did not prove %s (exit %d)" % (module, p.returncode))
+        n = int(m.group(1))
+        self.extra.setdefault("tlaps", []).append(dict(module=module, obligations_proved=n, wall_s=round(time.time() - t, 1)))
+        return n
+
     def tlc_expect_clean(self, module, cfg=None, **kw):
         """Leg (A): the specification itself must satisfy its properties; a failure here is an
         error in the model (exit 2), never a verdict about the code."""
